@@ -9,6 +9,18 @@ def gen(wd):
         raise RuntimeError("geometry globals not found in EbUtility.c")
     protos = "uint32_t count_total_num_of_active_blks(void);\nvoid depth_scan_all_blks(void);\nvoid md_scan_all_blks(uint32_t *idx_mds, uint32_t sq_size, uint32_t x, uint32_t y, int32_t is_last_quadrant, uint8_t quad_it);\nvoid finish_depth_scan_all_blks(void);\nvoid log_redundancy_similarity(uint32_t max_block_count);\n"
     open(os.path.join(wd, "c17_geom.inc"), "w").write("\n".join(decls) + "\n" + protos + slicer.function(src, "build_blk_geom"))
+def gen_psg(wd):
+    path = "Source/Lib/Encoder/Codec/EbPredictionStructure.c"
+    src = slicer.read(path)
+    f = slicer.function(src, "prediction_structure_group_ctor")
+    cut = f.find("    // Count the number of Prediction Structures")
+    if cut < 0:
+        raise RuntimeError("anchor not found in prediction_structure_group_ctor")
+    body = f[:cut]
+    head = re.sub(r"EbErrorType\s+prediction_structure_group_ctor\s*\(", "static EbErrorType psg_ctor_prefix(", body, count=1)
+    if head == body:
+        raise RuntimeError("signature of prediction_structure_group_ctor not recognised")
+    open(os.path.join(wd, "c17_psg_prefix.inc"), "w").write("/* sliced verbatim: prediction_structure_group_ctor up to the structure count */\n" + head + "    (void)pred_struct_index; (void)ref_idx; (void)hierarchical_level_idx; (void)pred_type_idx; (void)number_of_references;\n    return EB_ErrorNone;\n}\n")
 META = {
     "level_text": "2-call queries on the two pieces of process-global state that per-instance initialisation writes: after instance A initialises and instance B initialises with arbitrary (possibly different) parameters, A's view of the globals is asserted unchanged. Both assertions FAIL on the unchanged tree by construction of the code (the globals are rebuilt in place) and are recorded as known findings with their replay; the check exists so that the findings stay visible and any further shared global added to these two initialisers is reported as new.",
     "level_note": "Shared-state level only; that two concurrently running encodes actually diverge needs a two-instance run, which is not encodable. The table builders called by build_blk_geom are empty stubs: only the geometry parameters selected for the tables are compared.",
@@ -16,7 +28,14 @@ META = {
     "assumptions": [], "outside": ["decoder memory-map globals", "lp_group"],
     "stubs": ["count_total_num_of_active_blks, depth_scan_all_blks, md_scan_all_blks, finish_depth_scan_all_blks, log_redundancy_similarity (table builders; empty stubs)"], "explanation": ""}
 def queries(tier):
-    return [Query(name="blk_geom_shared", harness="C17/globals.c", defines=["MODE=1"], unwind=4, timeout=600, gen=gen,
+    def ps(manual, hl, en):
+        return Query(name="pred_struct_defaults_private_manual%d_hl%d_n%d" % (manual, hl, en), harness="C17/predstruct.c", gen=gen_psg, unwind=64, timeout=900, flags=["--object-bits", "10"],
+                     defines=["MANUAL=%d" % manual, "HL=%d" % hl, "EN=%d" % en],
+                     funcs=["Source/Lib/Encoder/Codec/EbPredictionStructure.c:prediction_structure_group_ctor (up to the structure count, sliced)", "Source/Lib/Encoder/Codec/EbPredictionStructure.c:prediction_structure_config_array_ctor"],
+                     bound="every preset 0..13; manual prediction structure %s" % ("off" if not manual else "on, %d hierarchical levels, %d entries, arbitrary entry contents" % (hl, en)),
+                     what="construction customises a private copy; the process-wide default tables stay bit-identical and are not aliased by the instance")
+    return [ps(0, 3, 1), ps(1, 2, 4), ps(1, 0, 1),
+            Query(name="blk_geom_shared", harness="C17/globals.c", defines=["MODE=1"], unwind=4, timeout=600, gen=gen,
                   funcs=["Source/Lib/Common/Codec/EbUtility.c:build_blk_geom"], bound="two initialisations, superblock size 64/128 each", what="instance A's block geometry survives instance B's initialisation"),
             Query(name="rtcd_shared", harness="C17/globals.c", defines=["MODE=2"], unwind=4, simd=True, timeout=600, flags=["--object-bits", "12"],
                   funcs=["Source/Lib/Common/Codec/common_dsp_rtcd.c:setup_common_rtcd_internal"], bound="two initialisations, all CPU-flag words", what="instance A's kernel selection survives instance B's initialisation")]
